@@ -59,13 +59,24 @@ Theorem C08_linenum_invariant : forall orc chunk data st valid encs prev,
 Proof. exact reachable_linenum. Qed.
 Print Assumptions C08_linenum_invariant.
 
-(* The sharper reading "the line number is at most the number of LF bytes of the input" is false: an unterminated last
-   content line made only of indentation is accepted (the newline test is made after the indentation is stripped) and
-   counted. Witness: ReaderFacts.lf_witness, error reported at line 5 of an input with 4 LF bytes. *)
-Theorem C08_linenum_lf_refuted :
-  exists data l c, snd (read_all [] default_chunk data) = TParse l c /\ ~ (l < Z.of_nat (count_lf data) + 1)%Z.
-Proof. exact C08_linenum_lf_refuted_proof. Qed.
-Print Assumptions C08_linenum_lf_refuted.
+(* The sharper reading: the line number is at most the number of LF bytes of the input, i.e. it is the 0-based index
+   of a physical line of the input (an unterminated last line counted). Every header line ends with LF; a content is
+   accepted only if its raw bytes end with the section's newline, so each counted content line ends with that
+   newline, and every newline of the codec catalogue contains an LF byte (table fact, by computation). Holds for
+   every chunk size (with chunk = 0 nothing is read). This was false (C08_linenum_lf_refuted) while the newline test
+   was made only after the indentation had been stripped; the former witness is ReaderFacts.lf_witness. *)
+Theorem C08_linenum_lines : forall orc chunk data l c,
+  snd (read_all orc chunk data) = TParse l c -> (l <= Z.of_nat (count_lf data))%Z.
+Proof. exact C08_linenum_lines_proof. Qed.
+Print Assumptions C08_linenum_lines.
+
+(* the bound is attained (unterminated content "ab" on physical line 2 of an input with 2 LF bytes), and the former
+   counter-example is now rejected on its line 2 *)
+Example C08_linenum_lines_ex :
+  snd (read_all [] 96 (ex_main_hdr ++ B "#.preamble: length=2" ++ ex_nl ++ B "ab")) = TParse 2 None /\
+  count_lf (ex_main_hdr ++ B "#.preamble: length=2" ++ ex_nl ++ B "ab") = 2 /\
+  snd (read_all [] default_chunk lf_witness) = TParse 2 None /\ count_lf lf_witness = 4.
+Proof. repeat split; vm_compute; reflexivity. Qed.
 
 (* DOM half: loading any bytes into the object model fails only with errors of the library's own family
    (DiffXParseError and the option/content/order errors). *)
